@@ -9,6 +9,7 @@ import (
 	"fmt"
 	"github.com/go-kid/ioc/container"
 	"reflect"
+	"strings"
 	"sync"
 	"sync/atomic"
 )
@@ -167,6 +168,12 @@ func (c *Core) Init() error {
 	c.B.InitCalls++
 	if c.B.Lookup != nil {
 		for _, n := range c.B.InitLookups {
+			if strings.HasPrefix(n, "?") {
+				// an optional collaborator (typically one the container does not know): the failure is tolerated
+				_, err := c.B.Lookup(n[1:])
+				c.B.Looked = append(c.B.Looked, LookResult{n, nil, err})
+				continue
+			}
 			got, err := c.B.Lookup(n)
 			c.B.Looked = append(c.B.Looked, LookResult{n, got, err})
 			if err != nil {
